@@ -573,6 +573,9 @@ Qed.
 Definition BL (d : db) (b : batch) (m0 : smap) (fl : list record) : Prop :=
   InvO d /\ InvP d /\ sreplay [] [] (log d) = (m0, pend (b_id b) fl) /\ R d (s_apply_recs m0 fl) /\
   (fl = [] \/ b_staged b <> []) /\ b_id b <> 0 /\ Forall ok_type (b_staged b).
+(* the records the batch has flushed so far, in the log: L0 is the log at NewBatch *)
+Definition BLog (d : db) (b : batch) (L0 : list record) (fl : list record) : Prop :=
+  log d = L0 ++ map (tag (b_id b)) fl /\ Forall ok_type fl.
 
 Lemma BL_start d m sync id : LogInv d m -> id <> 0 -> BL d (new_batch sync id) m [].
 Proof.
@@ -920,4 +923,150 @@ Proof.
   assert (Hok : disk_ok empty_disk) by (split; [reflexivity|split; [exact I|constructor]]).
   destruct (db_open_spec c empty_disk Hok) as (d & k & evs & Ho & HLO & Hlog & _ & Hnm).
   exists d, k, evs. split; [exact Ho|]. cbn in HLO. split; [split; [exact HLO|rewrite Hlog; reflexivity]|exact Hnm].
+Qed.
+
+(* ---- the log during a batch: L0 ++ the tagged records flushed so far --------------------------------- *)
+Lemma BLog_flush_stage d b m0 fl L0 d1 b1 ev1 :
+  Inv d -> BL d b m0 fl -> BLog d b L0 fl -> batch_flush_rotate d b = (d1, b1, ev1) ->
+  log d1 = L0 ++ map (tag (b_id b)) (fl ++ b_staged b) /\ Forall ok_type (fl ++ b_staged b) /\ b_id b1 = b_id b.
+Proof.
+  intros HI (HO & HP & _ & HR & _ & _ & Hty) [Hlog Htf] Hfl.
+  destruct (batch_flush_rotate_log _ _ _ _ _ (proj1 HI) HO HP HI Hfl) as (L1 & _ & _).
+  destruct (batch_flush_rotate_spec _ _ _ _ _ _ HI HR Hfl) as (_ & _ & _ & ->).
+  split; [rewrite L1, Hlog, map_app, app_assoc; reflexivity|]. split; [apply Forall_app; auto|reflexivity].
+Qed.
+
+Lemma BLog_put d b m0 fl L0 k v d' b' e evs :
+  Inv d -> BL d b m0 fl -> BLog d b L0 fl -> batch_put d b k v = (d', b', e, evs) ->
+  exists fl', BL d' b' m0 fl' /\ BLog d' b' L0 fl' /\ b_id b' = b_id b.
+Proof.
+  intros HI HB HG Hput. pose proof Hput as Hput0. unfold batch_put in Hput.
+  destruct (len k =? 0); [injection Hput as <- <- _ _; eauto|].
+  destruct (b_committed b); [injection Hput as <- <- _ _; eauto|].
+  destruct (staged_find (b_staged b) k) as [r|] eqn:Ef.
+  - destruct (c_fsize (d_cfg d) <? _).
+    + destruct (batch_flush_rotate d b) as [[d1 b1] ev1] eqn:Hfl. injection Hput as <- <- _ _.
+      destruct (BLog_flush_stage _ _ _ _ _ _ _ _ HI HB HG Hfl) as (A & B & C).
+      exists (fl ++ b_staged b). split; [eapply BL_flush_stage; eauto; apply ok_normal|].
+      split; [split; [cbn [with_staged b_id]; rewrite C; exact A|exact B]|exact C].
+    + injection Hput as <- <- _ _. destruct (BL_put _ _ _ _ _ _ _ _ _ _ HI HB Hput0) as [fl' HB'].
+      exists fl. split; [|split; [exact HG|reflexivity]].
+      destruct HB as (HO & HP & Hlog & HR & Hne & Hid & Hty). unfold batch_put in Hput0.
+      cbn [with_staged b_staged b_id].
+      split; [exact HO|]. split; [exact HP|]. split; [exact Hlog|]. split; [exact HR|].
+      split; [right; eapply staged_update_nonempty; eassumption|]. split; [exact Hid|].
+      apply staged_update_ok; [exact Hty|]. intros r0. reflexivity.
+  - destruct (c_fsize (d_cfg d) <? _).
+    + destruct (batch_flush_rotate d b) as [[d1 b1] ev1] eqn:Hfl. injection Hput as <- <- _ _.
+      destruct (BLog_flush_stage _ _ _ _ _ _ _ _ HI HB HG Hfl) as (A & B & C).
+      exists (fl ++ b_staged b). split; [eapply BL_flush_stage; eauto; apply ok_normal|].
+      split; [split; [cbn [with_staged b_id]; rewrite C; exact A|exact B]|exact C].
+    + injection Hput as <- <- _ _. exists fl. split; [|split; [exact HG|reflexivity]].
+      destruct HB as (HO & HP & Hlog & HR & Hne & Hid & Hty). cbn [with_staged b_staged b_id].
+      split; [exact HO|]. split; [exact HP|]. split; [exact Hlog|]. split; [exact HR|].
+      split; [right; destruct (b_staged b); discriminate|]. split; [exact Hid|].
+      apply Forall_app. split; [exact Hty|]. constructor; [apply ok_normal|constructor].
+Qed.
+
+Lemma BLog_delete d b m0 fl L0 k d' b' e evs :
+  Inv d -> BL d b m0 fl -> BLog d b L0 fl -> batch_delete d b k = (d', b', e, evs) ->
+  exists fl', BL d' b' m0 fl' /\ BLog d' b' L0 fl' /\ b_id b' = b_id b.
+Proof.
+  intros HI HB HG Hdel. unfold batch_delete in Hdel.
+  destruct (len k =? 0); [injection Hdel as <- <- _ _; eauto|].
+  destruct (b_committed b); [injection Hdel as <- <- _ _; eauto|].
+  pose proof HB as (HO & HP & Hlog & HR & Hne & Hid & Hty).
+  destruct (staged_find (b_staged b) k) as [r|] eqn:Ef.
+  - injection Hdel as <- <- _ _. exists fl. split; [|split; [exact HG|reflexivity]]. cbn [with_staged b_staged b_id].
+    split; [exact HO|]. split; [exact HP|]. split; [exact Hlog|]. split; [exact HR|].
+    split; [right; eapply staged_update_nonempty; eassumption|]. split; [exact Hid|].
+    apply staged_update_ok; [exact Hty|]. intros r0. reflexivity.
+  - destruct (idx_get (d_index d) k); [|injection Hdel as <- <- _ _; eauto].
+    destruct (c_fsize (d_cfg d) <? _).
+    + destruct (batch_flush_rotate d b) as [[d1 b1] ev1] eqn:Hfl. injection Hdel as <- <- _ _.
+      destruct (BLog_flush_stage _ _ _ _ _ _ _ _ HI HB HG Hfl) as (A & B & C).
+      exists (fl ++ b_staged b). split; [eapply BL_flush_stage; eauto; apply ok_deleted|].
+      split; [split; [cbn [with_staged b_id]; rewrite C; exact A|exact B]|exact C].
+    + injection Hdel as <- <- _ _. exists fl. split; [|split; [exact HG|reflexivity]]. cbn [with_staged b_staged b_id].
+      split; [exact HO|]. split; [exact HP|]. split; [exact Hlog|]. split; [exact HR|].
+      split; [right; destruct (b_staged b); discriminate|]. split; [exact Hid|].
+      apply Forall_app. split; [exact Hty|]. constructor; [apply ok_deleted|constructor].
+Qed.
+
+Lemma BLog_get d b m0 fl L0 k d' r evs :
+  Inv d -> BL d b m0 fl -> BLog d b L0 fl -> batch_get d b k = (d', r, evs) -> BLog d' b L0 fl.
+Proof.
+  intros HI HB [Hlog Htf] Hget. split; [|exact Htf]. rewrite <- Hlog.
+  unfold batch_get in Hget.
+  destruct (len k =? 0); [injection Hget as <- _ _; reflexivity|].
+  destruct (b_committed b); [injection Hget as <- _ _; reflexivity|].
+  destruct (staged_find (b_staged b) k) as [r0|]; [destruct (r_type r0 =? rt_Deleted); injection Hget as <- _ _; reflexivity|].
+  destruct (idx_get (d_index d) k) as [p|]; [|injection Hget as <- _ _; reflexivity].
+  destruct HB as (HO & _). exact (proj1 (same_files_props _ _ (db_read_files _ _ _ _ _ HO Hget))).
+Qed.
+
+Lemma run_bops_BLog : forall bops d b m0 fl L0 d' b' rs evs,
+  Inv d -> (exists mc, BRel d b mc) -> BL d b m0 fl -> BLog d b L0 fl -> run_bops d b bops = (d', b', rs, evs) ->
+  exists fl', BL d' b' m0 fl' /\ BLog d' b' L0 fl' /\ b_id b' = b_id b.
+Proof.
+  induction bops as [|o bops IH]; intros d b m0 fl L0 d' b' rs evs HI [mc HB] HL HG Hrun; cbn [run_bops] in Hrun.
+  - injection Hrun as <- <- _ _. eauto.
+  - destruct o as [k v|k|k].
+    + destruct (batch_put d b k v) as [[[d1 b1] e] ev1] eqn:Hp.
+      destruct (run_bops d1 b1 bops) as [[[d2 b2] rs2] ev2] eqn:Hr. injection Hrun as <- <- _ _.
+      destruct (batch_put_spec _ _ _ _ _ _ _ _ _ HI HB Hp) as (HI1 & _ & HB1 & _).
+      destruct (BLog_put _ _ _ _ _ _ _ _ _ _ _ HI HL HG Hp) as (fl1 & HL1 & HG1 & Hid1).
+      destruct (IH _ _ _ _ _ _ _ _ _ HI1 (ex_intro _ _ HB1) HL1 HG1 Hr) as (fl2 & A & B & C).
+      exists fl2. split; [exact A|]. split; [exact B|congruence].
+    + destruct (batch_delete d b k) as [[[d1 b1] e] ev1] eqn:Hp.
+      destruct (run_bops d1 b1 bops) as [[[d2 b2] rs2] ev2] eqn:Hr. injection Hrun as <- <- _ _.
+      destruct (batch_delete_spec _ _ _ _ _ _ _ _ HI HB Hp) as (HI1 & _ & HB1 & _).
+      destruct (BLog_delete _ _ _ _ _ _ _ _ _ _ HI HL HG Hp) as (fl1 & HL1 & HG1 & Hid1).
+      destruct (IH _ _ _ _ _ _ _ _ _ HI1 (ex_intro _ _ HB1) HL1 HG1 Hr) as (fl2 & A & B & C).
+      exists fl2. split; [exact A|]. split; [exact B|congruence].
+    + destruct (batch_get d b k) as [[d1 v] ev1] eqn:Hg.
+      destruct (run_bops d1 b bops) as [[[d2 b2] rs2] ev2] eqn:Hr. injection Hrun as <- <- _ _.
+      destruct (batch_get_spec d b mc k HI HB) as (d1' & ev1' & Hg' & HI1 & HB1 & _).
+      rewrite Hg in Hg'. injection Hg' as -> _ _.
+      pose proof (BL_get _ _ _ _ _ _ _ _ HI HL Hg) as HL1.
+      pose proof (BLog_get _ _ _ _ _ _ _ _ _ HI HL HG Hg) as HG1.
+      exact (IH _ _ _ _ _ _ _ _ _ HI1 (ex_intro _ _ HB1) HL1 HG1 Hr).
+Qed.
+
+(* Commit: the log becomes L0 ++ tagged records ++ sealing record (or stays L0 if nothing was staged) *)
+Lemma batch_commit_chunk d b mcur m0 fl L0 d' b' e evs :
+  Inv d -> BRel d b mcur -> BL d b m0 fl -> BLog d b L0 fl -> batch_commit d b = (d', b', e, evs) ->
+  (fl ++ b_staged b = [] /\ log d' = L0 /\ mcur = m0) \/
+  (log d' = L0 ++ map (tag (b_id b)) (fl ++ b_staged b) ++ [mkRec rt_BatchFinished (dec_digits (b_id b)) [] (b_id b)] /\
+   mcur = s_apply_recs m0 (fl ++ b_staged b) /\ Forall ok_type (fl ++ b_staged b)).
+Proof.
+  intros HI HB HL [Hlog Htf] Hc. pose proof HL as (HO & HP & Hsr & HR & Hne & Hid & Hty).
+  pose proof HB as (md & HRmd & Hs & Hnd & Hv & Hnc).
+  destruct (batch_commit_view _ _ _ _ _ _ _ HI HB Hc) as (HI' & HR' & _ & _).
+  unfold batch_commit in Hc. rewrite Hnc in Hc.
+  destruct (b_staged b) as [|r0 rs] eqn:Est.
+  - injection Hc as <- _ _ _. destruct Hne as [->|Hne]; [|contradiction]. left.
+    cbn [app map] in *. rewrite app_nil_r in Hlog. split; [reflexivity|]. split; [exact Hlog|].
+    eapply R_unique; [eapply BRel_nostage; eassumption|exact HR].
+  - right. set (bc := mkBatch (r0 :: rs) (b_cached b) true (b_sync b) (b_id b)) in *.
+    destruct (batch_flush d bc) as [[d1 b1] ev1] eqn:Hfl.
+    destruct (batch_flush_spec _ _ _ _ _ _ HI HR Hfl) as (HI1 & HR1 & _ & _).
+    destruct (batch_flush_log _ _ _ _ _ (proj1 HI) HO HP Hfl) as (L1 & O1 & P1).
+    cbn [bc b_staged b_id] in L1, HR1.
+    set (seal := mkRec rt_BatchFinished (dec_digits (b_id b)) [] (b_id b)) in *.
+    destruct (lf_append (io_of d1) (FData (d_active_id d1)) (d_active_id d1) (d_active d1) seal) as [[a p] ev2] eqn:Hla.
+    destruct (if b_sync b then h_sync (FData (d_active_id d1)) a else (a, [])) as [a' ev3] eqn:Hsy.
+    assert (Ha' : lf_recs a' = lf_recs a).
+    { destruct (b_sync b).
+      - pose proof (h_sync_same (FData (d_active_id d1)) a) as [H _]. rewrite Hsy in H. exact H.
+      - injection Hsy as <- <-. reflexivity. }
+    assert (Hceq : batch_commit d b = (set_active d1 (d_active_id d1) a', b1, None, ev1 ++ ev2 ++ ev3)).
+    { unfold batch_commit. rewrite Hnc, Est. fold bc. rewrite Hfl. fold seal. rewrite Hla, Hsy. reflexivity. }
+    injection Hc as <- _ _ _.
+    destruct (active_append_log d1 seal a p ev2 a' (proj1 HI1) O1 P1 Hla Ha') as (L2 & _ & _).
+    split; [rewrite L2, L1, Hlog, map_app, <- !app_assoc; reflexivity|]. split.
+    + eapply R_unique; [exact HR'|]. rewrite s_apply_recs_app.
+      destruct (batch_commit_spec d (s_apply_recs m0 fl) b _ _ _ _ HI HR Hnc Hceq) as (_ & HRc & _).
+      rewrite Est in HRc. exact HRc.
+    + apply Forall_app. auto.
 Qed.
